@@ -19,7 +19,7 @@ PROPS = {
     "C03": dict(
         mc=["MC_Compress"],
         gen=[dict(module="Gen_Packet", cfg="Gen_Packet.cfg", out="packet_cases.ndjson",
-                  simulate=dict(quick="num=1500", thorough="num=25000", depth=40))],
+                  simulate=dict(quick="num=1500", thorough="num=25000", depth=80))],
         topic="compress",
         min_counters={"distinct_rr_types": 35},
         rules=["NoPanic", "BuildOk", "CompDecodes", "CompShorter", "CompRoundTrip"],
@@ -28,16 +28,16 @@ PROPS = {
     "C07": dict(
         mc=["MC_Compress"],
         runs=[dict(topic="compress", gen=[dict(module="Gen_Packet", cfg="Gen_Packet.cfg", out="packet_cases.ndjson",
-                  simulate=dict(quick="num=1500", thorough="num=25000", depth=40))], shards=14),
+                  simulate=dict(quick="num=1500", thorough="num=25000", depth=80))], shards=14),
               dict(topic="sinks", gen=[dict(module="Gen_Packet", cfg="Gen_Packet.cfg", out="packet_cases.ndjson",
-                  simulate=dict(quick="num=300", thorough="num=25000", depth=40))], shards=14)],
+                  simulate=dict(quick="num=300", thorough="num=25000", depth=80))], shards=14)],
         rules=["PtrValid", "PtrForbidden", "PtrRequired", "CompDecodes", "SinkSame"],
     ),
     "C04": dict(
         runs=[dict(topic="sinks", gen=[dict(module="Gen_Packet", cfg="Gen_Packet.cfg", out="packet_cases.ndjson",
-                  simulate=dict(quick="num=600", thorough="num=25000", depth=40))], shards=14),
+                  simulate=dict(quick="num=600", thorough="num=25000", depth=80))], shards=14),
               dict(topic="compress", gen=[dict(module="Gen_Packet", cfg="Gen_Packet.cfg", out="packet_cases.ndjson",
-                  simulate=dict(quick="num=1500", thorough="num=25000", depth=40))], shards=14)],
+                  simulate=dict(quick="num=1500", thorough="num=25000", depth=80))], shards=14)],
         rules=["NoPanic", "SinkErr", "SinkSame", "BuildOk", "PlainCanonical", "CompDecodes"],
     ),
     "C05": dict(
@@ -48,15 +48,15 @@ PROPS = {
     ),
     "C02": dict(
         gen=[dict(module="Gen_Packet", cfg="Gen_Packet.cfg", out="packet_cases.ndjson",
-                  simulate=dict(quick="num=1500", thorough="num=25000", depth=40))],
+                  simulate=dict(quick="num=1500", thorough="num=25000", depth=80))],
         topic="packet",
         min_counters={"distinct_rr_types": 35},
-        rules=["NoPanic", "BuildOk", "RoundTrip"],
+        rules=["NoPanic", "BuildOk", "RoundTrip", "ApiStep"],
         shards=12,
     ),
     "C09": dict(
         gen=[dict(module="Gen_Packet", cfg="Gen_Packet.cfg", out="packet_cases.ndjson",
-                  simulate=dict(quick="num=1500", thorough="num=25000", depth=40)),
+                  simulate=dict(quick="num=1500", thorough="num=25000", depth=80)),
              dict(module="Gen_Edns", cfg="Gen_Edns.cfg", out="edns_cases.ndjson")],
         topic="edns",
         rules=["NoPanic", "BuildOk", "PlainCanonical", "RoundTrip", "ParseEqRef", "MustAccept"],
@@ -130,7 +130,7 @@ PROPS = {
     ),
     "C16": dict(
         gen=[dict(module="Gen_Packet", cfg="Gen_Packet.cfg", out="packet_cases.ndjson",
-                  simulate=dict(quick="num=500", thorough="num=8000", depth=40)),
+                  simulate=dict(quick="num=500", thorough="num=8000", depth=80)),
              dict(module="Gen_Instance", cfg="Gen_Instance.cfg", out="instance_cases.ndjson")],
         topic="values",
         rules=["NoPanic", "OwnEqual", "EqSpec", "EqHash"],
